@@ -76,6 +76,33 @@ def zoo_pc(sa, orm, reg, *, collection="list", cascade="save-update, merge",
     return {"P": P, "C": C}
 
 
+def zoo_pc_nobackref(sa, orm, reg, *, collection="list", cascade="save-update, merge"):
+    """P --< C as a one-way one-to-many: ``P.children`` only, no back-reference on C (C keeps the
+    plain ``p_id`` column).  Members can then sit in two parents' collections at once."""
+    from sqlalchemy.orm.collections import attribute_keyed_dict
+
+    coll = {"list": list, "set": set, "dict": attribute_keyed_dict("k")}[collection]
+    P = type("P", (object,), {
+        "__tablename__": "p",
+        "id": sa.Column(sa.Integer, primary_key=True),
+        "name": sa.Column(sa.String),
+        "n": sa.Column(sa.Integer),
+        "__repr__": lambda self: "<P@%x>" % id(self),
+    })
+    C = type("C", (object,), {
+        "__tablename__": "c",
+        "id": sa.Column(sa.Integer, primary_key=True),
+        "p_id": sa.Column(sa.ForeignKey("p.id"), nullable=True),
+        "v": sa.Column(sa.String),
+        "k": sa.Column(sa.String),
+        "__repr__": lambda self: "<C@%x>" % id(self),
+    })
+    reg.mapped(P)
+    reg.mapped(C)
+    P.__mapper__.add_property("children", orm.relationship(C, collection_class=coll, cascade=cascade))
+    return {"P": P, "C": C}
+
+
 def zoo_natural(sa, orm, reg):
     """Z7-lite: N(code natural string PK, v)  and  K(k1, k2 composite PK, v)."""
     N = type("N", (object,), {
